@@ -259,10 +259,7 @@ func rsInstances(tier string) []Instance {
 						}
 						for _, n := range ns {
 							bound := 1
-							if len(s) >= 4 && !thorough(tier) {
-								bound = 0
-							}
-							if thorough(tier) && len(s) <= 3 {
+							if len(s) <= 3 {
 								bound = 2
 							}
 							p := rsParams{script: s, kind: kind, initUp: initUp, fire: fire, blocking: blocking, n: n}
